@@ -98,9 +98,7 @@ theorem sameBk_emitFold (ctx : Ctx) (st : St) (n : Node) (c : CInfo) : SameBk st
     · exact ⟨rfl, rfl, rfl, rfl⟩
     · split
       · split <;> exact ⟨rfl, rfl, rfl, rfl⟩
-      · split
-        · split <;> exact ⟨rfl, rfl, rfl, rfl⟩
-        · split <;> exact ⟨rfl, rfl, rfl, rfl⟩
+      · split <;> exact ⟨rfl, rfl, rfl, rfl⟩
 
 theorem sameBk_gateCascade (ctx : Ctx) (st : St) (n : Node) (v : Nat) : SameBk st (gateCascade ctx st n v).2 := by
   unfold gateCascade
